@@ -19,7 +19,7 @@ from ..ref.trees import NULL, RefTS, RefTree
 
 ID = "C20"
 LEVEL = "exploration"
-VARIANT = "plain"
+VARIANT = "asan"   # the four heap buffers and the 64-slot stack array are part of what is checked
 RULE = ("every universe member (all parent choices per node per cell, all sample-flag subsets) x "
         "every marginal tree x every genotype vector over {missing} + allele symbols for the samples "
         "x every ancestral_state form (None, index, string; observed and unobserved); one evaluation = "
@@ -69,48 +69,57 @@ def bounds(tier):
 
 
 def _split(specs, b, per, **kw):
-    cnt = U.count_members(b["N"], b["G"], b.get("times", "id") if b.get("times") != "rev" else "id")
+    """Shards are sets of *structures* (time ranks + parent vectors); a shard runs every
+    sample-flag subset of each of its structures, so shards of one group cost about the same.
+    per = structures per shard."""
+    times = b.get("times", "id")
+    cnt = U.count_members(b["N"], b["G"], "id" if times == "rev" else times, flags="none")
     n = max(1, -(-cnt // per))
-    if n > 1 and n % 2 == 0:
-        n += 1  # odd stride: every shard sees every sample-flag pattern
     for k in range(n):
         specs.append(dict(b=b, k=k, n=n, **kw))
+
+
+def members_of_shard(b, k, n):
+    structs = U.enumerate_members(flags="none", **b)
+    for st in U.shard(structs, k, n):
+        for fl in itertools.product((0, 1), repeat=st.N):
+            yield U.Member(st.N, st.G, st.ranks, st.parents, fl, st.grid, st.squash, st.timescale)
 
 
 def shards(tier, seed):
     specs = []
     std = dict(mode="std", ancs=list(STD_ANCS), syms=list(STD_SYMS))
+    specs.append(dict(selftest=True))
     if tier == "quick":
-        specs.append(dict(selftest=True))
         for n in (0, 1, 2, 3):
             _split(specs, dict(N=n, G=1), 100, roundtrip=True, reject=True, **std)
             _split(specs, dict(N=n, G=2), 100, **std)
-        _split(specs, dict(N=4, G=1), 16, roundtrip=True, **std)
-        _split(specs, dict(N=5, G=1), 20, **std)
-        _split(specs, dict(N=4, G=1, times="rev"), 40, **std)
-        _split(specs, dict(N=3, G=1, times="weak"), 200, **std)
+        _split(specs, dict(N=4, G=1), 2, roundtrip=True, **std)
+        _split(specs, dict(N=5, G=1), 1, **std)
+        _split(specs, dict(N=4, G=1, times="rev"), 6, **std)
+        _split(specs, dict(N=3, G=1, times="weak"), 30, **std)
         high = dict(mode="high", ancs=list(HIGH_ANCS), syms=list(HIGH_SYMS_Q), reject=True)
         for n in (1, 2, 3):
             _split(specs, dict(N=n, G=1), 100, **high)
-        _split(specs, dict(N=4, G=1), 40, **high)
+        _split(specs, dict(N=4, G=1), 6, **high)
     else:
-        specs.append(dict(selftest=True))
         for n in (0, 1, 2, 3):
             _split(specs, dict(N=n, G=1), 100, roundtrip=True, reject=True, **std)
             _split(specs, dict(N=n, G=2), 100, **std)
-            _split(specs, dict(N=n, G=3), 400, **std)
-            _split(specs, dict(N=n, G=1, times="weak"), 200, **std)
-        _split(specs, dict(N=4, G=1), 16, roundtrip=True, **std)
-        _split(specs, dict(N=5, G=1), 20, roundtrip=True, **std)
-        _split(specs, dict(N=5, G=1, times="rev"), 40, **std)
-        _split(specs, dict(N=4, G=1, times="weak"), 400, **std)
-        _split(specs, dict(N=4, G=2), 200, **std)
-        _split(specs, dict(N=6, G=1), 150, mode="std", ancs=["none", "i0", "i3", "s1"],
+            _split(specs, dict(N=n, G=3), 30, **std)
+            _split(specs, dict(N=n, G=1, times="weak"), 30, **std)
+        _split(specs, dict(N=4, G=1), 2, roundtrip=True, **std)
+        _split(specs, dict(N=5, G=1), 1, roundtrip=True, **std)
+        _split(specs, dict(N=5, G=1, times="rev"), 2, **std)
+        _split(specs, dict(N=4, G=1, times="weak"), 20, **std)
+        _split(specs, dict(N=4, G=2), 10, **std)
+        _split(specs, dict(N=6, G=1), 3, mode="std", ancs=["none", "i0", "i3", "s1"],
                syms=list(STD_SYMS))
         high = dict(mode="high", ancs=list(HIGH_ANCS), syms=list(HIGH_SYMS_T), reject=True)
-        for n in (1, 2, 3, 4):
-            _split(specs, dict(N=n, G=1), 40, **high)
-        _split(specs, dict(N=5, G=1), 40, **high)
+        for n in (1, 2, 3):
+            _split(specs, dict(N=n, G=1), 100, **high)
+        _split(specs, dict(N=4, G=1), 6, **high)
+        _split(specs, dict(N=5, G=1), 2, **high)
     return specs
 
 
@@ -146,14 +155,12 @@ class Ctx:
         self.tables = None
 
 
-def judge(ctx, mode, geno, code, roundtrip, acc, case):
-    """One valid call; returns True if the reference optimum is >= 1."""
+def judge(ctx, mode, geno, geno_arr, costs, code, roundtrip, acc, case):
+    """One valid call; costs = reference minimum per ancestral state for this vector.
+    Returns True if the reference optimum is >= 1."""
     m = ctx.m
     alleles = STD_ALLELES if mode == "std" else HIGH_ALLELES
-    states = STD_STATES if mode == "std" else HIGH_STATES
     samples = ctx.samples
-    obs = {u: g for u, g in zip(samples, geno) if g != -1}
-    costs = P.root_costs(ctx.par, obs, states)
     arg, fixed = anc_arg(code, alleles)
     opt = min(costs.values()) if fixed is None else costs[fixed]
 
@@ -162,15 +169,16 @@ def judge(ctx, mode, geno, code, roundtrip, acc, case):
                       f"ancestral_state={arg!r}", case)
 
     try:
-        if mode == "std":
-            if arg is None and (sum(geno) & 1):
+        # argument forms: list / int8 array / int32 array; ancestral_state omitted / None / given
+        if code == "none":
+            if sum(geno) & 1:
                 ret = ctx.tree.map_mutations(list(geno), alleles)
             else:
-                ret = ctx.tree.map_mutations(list(geno), alleles, ancestral_state=arg)
+                ret = ctx.tree.map_mutations(list(geno), list(alleles), ancestral_state=None)
+        elif code[0] == "s":
+            ret = ctx.tree.map_mutations(geno_arr.astype("int32"), list(alleles), arg)
         else:
-            import numpy as np
-
-            ret = ctx.tree.map_mutations(np.array(geno, dtype=np.int32), list(alleles), arg)
+            ret = ctx.tree.map_mutations(geno_arr, alleles, ancestral_state=arg)
         anc_ret, muts = ret
         muts = list(muts)
     except Exception as e:  # noqa
@@ -182,6 +190,7 @@ def judge(ctx, mode, geno, code, roundtrip, acc, case):
         return opt >= 1
     if fixed is not None and anc_ret != alleles[fixed]:
         fail("ancestral:not_as_fixed", f"returned ancestral state {anc_ret!r}, fixed {alleles[fixed]!r}")
+        return opt >= 1
     rows = []
     for j, mu in enumerate(muts):
         node, der, par = mu.node, mu.derived_state, mu.parent
@@ -307,6 +316,9 @@ def check_member(m, spec, acc, only_tree=None, only_geno=None, only_anc=None, on
     base = {"member": m.desc(), "mode": mode, "ancs": list(ancs), "syms": list(syms),
             "roundtrip": roundtrip, "do_reject": bool(spec.get("reject"))}
     acc.enter(base)
+    import numpy as np
+
+    states = STD_STATES if mode == "std" else HIGH_STATES
     ctx0 = Ctx(m, 0)
     k = len(ctx0.samples)
     sampled = False
@@ -327,11 +339,14 @@ def check_member(m, spec, acc, only_tree=None, only_geno=None, only_anc=None, on
                 continue
             gcase = dict(tcase, geno=list(geno))
             acc.enter(gcase)
+            obs = {u: g for u, g in zip(ctx.samples, geno) if g != -1}
+            costs = P.root_costs(ctx.par, obs, states)
+            geno_arr = np.array(geno, dtype=np.int8)
             for code in ancs:
                 if only_anc is not None and code != only_anc:
                     continue
                 case = dict(gcase, anc=code)
-                nt = judge(ctx, mode, geno, code, roundtrip, acc, case)
+                nt = judge(ctx, mode, geno, geno_arr, costs, code, roundtrip, acc, case)
                 acc.ev(1, nt)
                 if nt and not sampled and len(set(geno)) > 2:
                     sampled = True
@@ -363,8 +378,7 @@ def run_shard(spec):
     if spec.get("selftest"):
         selftest(acc)
         return acc.result()
-    gen = U.enumerate_members(**spec["b"])
-    for m in U.shard(gen, spec["k"], spec["n"]):
+    for m in members_of_shard(spec["b"], spec["k"], spec["n"]):
         check_member(m, spec, acc)
     return acc.result()
 
